@@ -167,8 +167,13 @@ func c42Exchange(cb c42Combo, plain [][]byte, hsOps []tamperOp, transform func(r
 				}
 				switch op.Kind {
 				case "hs-flip":
-					body := len(rc.Raw) - 5
-					out[0] = flipBit(rc.Raw, 5+(op.Arg/8)%body, op.Arg%8)
+					// not in the 4-byte handshake message header: a larger length only makes the
+					// server wait for bytes that never come (a stall, not an integrity matter)
+					body, skip := len(rc.Raw)-5, 4
+					if body <= skip {
+						skip = 0
+					}
+					out[0] = flipBit(rc.Raw, 5+skip+(op.Arg/8)%(body-skip), op.Arg%8)
 				case "hs-drop":
 					out = out[1:]
 				case "hs-dup":
@@ -405,30 +410,33 @@ func applyOps(recs [][]byte, donor [][]byte, ops []tamperOp) []byte {
 	return out
 }
 
-// streamShape classifies the delivered stream against the original one.
+// streamShape classifies the delivered stream by its structure: the complete
+// records it holds (by their own length fields) and the trailing bytes.
 func streamShape(recs [][]byte, out []byte) string {
 	orig := bytes.Join(recs, nil)
 	if bytes.Equal(orig, out) {
 		return "unchanged"
 	}
-	if len(out) < len(orig) && bytes.Equal(orig[:len(out)], out) {
-		off := 0
-		for _, rc := range recs {
-			if len(out) == off {
-				return "cut-at-record-boundary"
-			}
-			if len(out) < off+5 {
-				return "cut-inside-record-header"
-			}
-			if len(out) < off+len(rc) {
-				return "cut-inside-record-body"
-			}
-			off += len(rc)
-		}
-	}
 	// anything that first differs after the close_notify record is invisible to a correct peer
 	if n := len(orig); len(out) > n && bytes.Equal(out[:n], orig) {
 		return "only-after-close-notify"
+	}
+	outRecs, rest := splitRecords(out)
+	for i, rc := range outRecs {
+		if i >= len(recs) || !bytes.Equal(rc.Raw, recs[i]) {
+			return "modified"
+		}
+	}
+	// every complete record delivered is an untouched original one, in order
+	k := len(outRecs)
+	switch {
+	case len(rest) == 0:
+		return "cut-at-record-boundary"
+	case len(rest) < 5:
+		// the bytes of an incomplete header are never interpreted: their content does not matter
+		return "cut-inside-record-header"
+	case k < len(recs) && len(rest) < len(recs[k]) && bytes.Equal(rest, recs[k][:len(rest)]):
+		return "cut-inside-record-body"
 	}
 	return "modified"
 }
